@@ -50,11 +50,31 @@ theorem admit_spec (q : List Nat) (r : Nat) (th : Option Nat) :
     (∀ c, th = some c → (K4.admission q r th).1 ≠ [] → (K4.admission q r th).2.2.1 ≤ c) := by
   obtain ⟨taken, h1, h2, h3, h4, h5, h6⟩ := admit_loop_spec th q [] r 0
   simp only [K4.admission]
+  try simp only [ite_self]      -- a branch that only notifies (`if to_submit: notify_all()`) leaves both arms equal
   simp only [List.nil_append] at h1
   refine ⟨?_, ?_, ?_, h5, ?_⟩
   · rw [h1]; exact h2
   · rw [h1]; exact h3
   · rw [h1]; simpa using h4
   · intro c hc hne; rw [h1] at hne; exact h6 c hc hne
+
+/-- the two loops generated from the same source section are the same function -/
+theorem notifies_loop_eq (th : Option Nat) (q ts : List Nat) (r d : Nat) :
+    K4.admissionNotifies_loop1 th q ts r d = K4.admission_loop1 th q ts r d := by
+  induction q generalizing ts r d with
+  | nil => simp [K4.admissionNotifies_loop1, K4.admission_loop1]
+  | cons job rest ih =>
+    unfold K4.admissionNotifies_loop1 K4.admission_loop1
+    split
+    · rfl
+    · exact ih _ _ _
+
+/-- (regenerated from `_submit_loop_iter`) the locked section notifies the submitters blocked in `_block_until_ready`
+exactly when it has taken at least one job off the queue - i.e. whenever it made room. -/
+theorem admissionNotifies_spec (q : List Nat) (r : Nat) (th : Option Nat) :
+    K4.admissionNotifies q r th = !(K4.admission q r th).1.isEmpty := by
+  simp only [K4.admissionNotifies, K4.admission, notifies_loop_eq]
+  try simp only [ite_self]
+  split <;> simp_all
 
 end MoreExec.Throttle
